@@ -4,20 +4,9 @@ open Lean
 
 namespace Drv.C19
 
-/-- Spec oracle (O(n²) definition) evaluated on a claimed mask:
-    sound: marked i ⇒ no j strictly dominates i;
-    complete: unmarked i ⇒ some marked j weakly dominates i -/
-def specMask (fmat : List (List Rat)) (wt : List Rat) (mask : List Bool) : Bool × String :=
-  let rows := fmat.map (Pareto.Q.applyWt wt)
-  let n := rows.length
-  if mask.length != n then (false, "mask length") else
-  let idx := List.range n
-  let get (i : Nat) : List Rat := rows.getD i []
-  let sound := idx.all (fun i => !mask.getD i false || idx.all (fun j => !Pareto.Q.strictDom (get j) (get i)))
-  let complete := idx.all (fun i => mask.getD i false ||
-      idx.any (fun j => mask.getD j false && Pareto.Q.weakDom (get i) (get j)))
-  (sound && complete, s!"sound={sound} complete={complete}")
-
+/-- Spec oracle of sentence 1 (`Pareto.Q.specMask`: sound + complete, O(n·#marked) definition) and of
+    "mask and index forms agree" (`Pareto.specIdx`), evaluated on the implementation's outputs;
+    `Props/C19.spec_mask_iff`, `spec_mask_sound`, `spec_idx_iff`, `spec_idx_sound` -/
 def opPareto : J.Op := fun j => do
   let fmat ← J.field j "fmat" (J.mat J.rat)
   let wt ← J.field j "wt" (J.list J.rat)
@@ -29,10 +18,14 @@ def opSpecPareto : J.Op := fun j => do
   let wt ← J.field j "wt" (J.list J.rat)
   let mask ← J.field j "mask" (J.list J.bool)
   let idx ← J.field j "idx" (J.list J.nat)
-  let (ok, msg) := specMask fmat wt mask
-  let agree := (List.range fmat.length).all (fun i => mask.getD i false == idx.contains i)
-    && idx.all (· < fmat.length) && idx.eraseDups.length == idx.length
-  pure <| J.obj [("ok", J.ofBool (ok && agree)), ("detail", J.ofStr s!"{msg} mask_eq_index={agree}")]
+  let rows := fmat.map (Pareto.Q.applyWt wt)
+  let lenOk := mask.length == rows.length
+  let sound := Pareto.Q.specRowsSound rows mask
+  let complete := Pareto.Q.specRowsComplete rows mask
+  let ok := Pareto.Q.specMask fmat wt mask
+  let agree := Pareto.specIdx fmat.length mask idx
+  pure <| J.obj [("ok", J.ofBool (ok && agree)),
+    ("detail", J.ofStr s!"mask_length_ok={lenOk} sound={sound} complete={complete} mask_eq_index={agree}")]
 
 def opDominates : J.Op := fun j => do
   let o1 ← J.field j "obj1" (J.list J.rat)
@@ -41,17 +34,63 @@ def opDominates : J.Op := fun j => do
   let c2 ← J.field j "cv2" J.rat
   pure <| J.ofBool (Pareto.Q.dominates o1 c1 o2 c2)
 
+/-- Spec of sentence 2 (`Pareto.Q.specDominates`: four-way case split on feasibility) on the
+    implementation's answer; `Props/C19.spec_dominates_iff`, `spec_dominates_sound` -/
+def opSpecDominates : J.Op := fun j => do
+  let o1 ← J.field j "obj1" (J.list J.rat)
+  let o2 ← J.field j "obj2" (J.list J.rat)
+  let c1 ← J.field j "cv1" J.rat
+  let c2 ← J.field j "cv2" J.rat
+  let claimed ← J.field j "claimed" J.bool
+  pure <| J.obj [("ok", J.ofBool (Pareto.Q.specDominates o1 c1 o2 c2 claimed)),
+                 ("want", J.ofBool (Pareto.Q.wantDominates o1 c1 o2 c2))]
+
 def opDist : J.Op := fun j => do
   let mat ← J.field j "mat" (J.mat J.rat)
   let sign ← J.field j "sign" (J.list J.rat)
   let line ← J.field j "line" (J.list J.rat)
   let guarded ← J.field j "guarded" J.bool
-  pure <| J.ofOpt (J.ofList J.ofRat) (Pareto.Q.transDistSq guarded mat sign line)
+  let variant ← J.fieldD j "variant" J.str "common"
+  -- the line-by-line transcription of the named source function (argument order of that function);
+  -- `common` = the shared model `transDistSq` (Props/C19.dist_three_copies_agree: all four are equal)
+  let out := match variant with
+    | "core" => Pareto.Q.transDistCore mat sign line
+    | "prob" => Pareto.Q.transDistProb mat line sign
+    | "transfn" => Pareto.Q.transDistFn mat line sign
+    | _ => Pareto.Q.transDistSq guarded mat sign line
+  pure <| J.ofOpt (J.ofList J.ofRat) out
+
+/-- the other front-ranking transformations (`transfn.trans_dot`, `transfn.trans_sum`, and the
+    latent-vector `trans_sum` / `trans_dot` of sel/prob/trans.py) -/
+def opWsum : J.Op := fun j => do
+  let fn ← J.field j "fn" J.str
+  match fn with
+  | "dot" =>
+    let mat ← J.field j "mat" (J.mat J.rat)
+    let wt ← J.field j "wt" (J.list J.rat)
+    pure <| J.ofList J.ofRat (Pareto.Q.transDot mat wt)
+  | "sum1" =>
+    let mat ← J.field j "mat" (J.mat J.rat)
+    pure <| J.ofList J.ofRat (Pareto.Q.transSumAxis1 mat)
+  | "sum0" =>
+    let mat ← J.field j "mat" (J.mat J.rat)
+    pure <| J.ofList J.ofRat (Pareto.Q.transSumAxis0 mat)
+  | "sumall" =>
+    let mat ← J.field j "mat" (J.mat J.rat)
+    pure <| J.ofRat (Pareto.Q.transSumAll mat)
+  | "latent_sum" =>
+    let v ← J.field j "vec" (J.list J.rat)
+    pure <| J.ofList J.ofRat (Pareto.Q.latentSum v)
+  | "latent_dot" =>
+    let v ← J.field j "vec" (J.list J.rat)
+    let wt ← J.field j "wt" (J.list J.rat)
+    pure <| J.ofList J.ofRat (Pareto.Q.latentDot v wt)
+  | _ => J.fail s!"c19.wsum: unknown fn {fn}"
 
 /-- Spec of the distance clause on the implementation's SQUARED distances (`null` = NaN / inf):
-    `Pareto.Q.specDist` (finite, one per point, equal to the geometric definition `Pareto.Q.geoDist`
-    within the harness' tolerance rule); `Props/C19.Q_spec_dist_sound` shows it accepts `c19.dist`'s
-    own answer.  The detail names the first offending point. -/
+    `Pareto.Q.specDistFast` = `Pareto.Q.specDist` (Props/C19.spec_dist_fast_eq: finite, one per point, equal to
+    the geometric definition `Pareto.Q.geoDist` within the harness' tolerance rule);
+    `Props/C19.Q_spec_dist_sound` shows it accepts `c19.dist`'s own answer.  The detail names the first offending point. -/
 def opSpecDist : J.Op := fun j => do
   let mat ← J.field j "mat" (J.mat J.rat)
   let sign ← J.field j "sign" (J.list J.rat)
@@ -59,8 +98,8 @@ def opSpecDist : J.Op := fun j => do
   let d2 ← J.field j "d2" (J.list (J.opt J.rat))
   let rel ← J.field j "rel" J.rat
   let abs_ ← J.field j "abs" J.rat
-  let ok := Pareto.Q.specDist rel abs_ mat sign line d2
-  let want := Pareto.Q.geoDist mat sign line
+  let ok := Pareto.Q.specDistFast rel abs_ mat sign line d2
+  let want := Pareto.Q.geoDistFast mat sign line
   let detail : String :=
     if ok then "definition ok" else
     if d2.any Option.isNone then "non-finite distance" else
@@ -72,8 +111,41 @@ def opSpecDist : J.Op := fun j => do
     | none => "?"
   pure <| J.obj [("ok", J.ofBool ok), ("detail", J.ofStr detail), ("want", J.ofList J.ofRat want)]
 
+/-- digits of `k` in base `lv`, most significant first, exactly `n` of them
+    (`itertools.product(range(lv), repeat=n)` enumerates in this order) -/
+def digits (lv n k : Nat) : List Nat :=
+  ((List.range n).foldl (fun (acc : List Nat × Nat) _ => ((acc.2 % lv) :: acc.1, acc.2 / lv)) ([], k)).1
+
+def chunk {β : Type} (w : Nat) : Nat → List β → List (List β)
+  | 0, _ => []
+  | n+1, l => l.take w :: chunk w n (l.drop w)
+
+/-- exhaustive block: the point sets number `start … start+count-1` of `npt` points × `nobj` objectives over
+    `{0..lv-1}`; returns the model's masks (concatenated `0/1` string) and evaluates the Spec
+    `Pareto.Q.specMask` on the implementation's masks (same encoding in `masks`) -/
+def opExh : J.Op := fun j => do
+  let lv ← J.field j "lv" J.nat
+  let nobj ← J.field j "nobj" J.nat
+  let npt ← J.field j "npt" J.nat
+  let start ← J.field j "start" J.nat
+  let count ← J.field j "count" J.nat
+  let wt ← J.field j "wt" (J.list J.rat)
+  let masks ← J.field j "masks" J.str
+  let bits : Array Bool := masks.toList.toArray.map (· == '1')
+  let mut model : Array Char := Array.mkEmpty (count * npt)
+  let mut bad : List Nat := []
+  for t in [0:count] do
+    let k := start + t
+    let fmat : List (List Rat) := chunk nobj npt ((digits lv (npt * nobj) k).map (fun (d : Nat) => ((d : Int) : Rat)))
+    for b in Pareto.Q.efficientMask fmat wt do
+      model := model.push (if b then '1' else '0')
+    let claimed : List Bool := (List.range npt).map (fun i => bits.getD (t * npt + i) false)
+    if !(Pareto.Q.specMask fmat wt claimed) then bad := k :: bad
+  pure <| J.obj [("model", J.ofStr (String.ofList model.toList)), ("spec_bad", J.ofList J.ofNat bad.reverse)]
+
 def ops : List (String × J.Op) :=
   [("c19.pareto", opPareto), ("c19.spec_pareto", opSpecPareto),
-   ("c19.dominates", opDominates), ("c19.dist", opDist), ("c19.spec_dist", opSpecDist)]
+   ("c19.dominates", opDominates), ("c19.spec_dominates", opSpecDominates),
+   ("c19.dist", opDist), ("c19.spec_dist", opSpecDist), ("c19.wsum", opWsum), ("c19.exh", opExh)]
 
 end Drv.C19
